@@ -102,7 +102,9 @@ def judgeRound (s : Spec) (r : Rat) (D Pt : V3 Rat) (extra : Rat) : String :=
   if r < 0 then "skip negative-radius" else
   let n := norm3 D
   if n = 0 then "skip zero-direction" else
-  judge s D (Pt.sub (D.smul (r / n))) (extra + r)
+  match judge s D (Pt.sub (D.smul (r / n))) (extra + r) with
+  | "fail not-a-member" => "fail not-a-support-point-of-the-rounded-shape (p - r*dir/|dir| is outside the core shape)"
+  | v => v
 
 def specPoint (c : V3 Rat) : Spec :=
   { mem := fun p sl => (p.sub c).normSq ≤ sl * sl, h := fun d => d.dot c, ext := linf3 c }
@@ -152,6 +154,11 @@ structure Shape3 where
   finiteArgs : Bool
   /-- oracle on exact data: direction, returned point, extra scale -/
   judge : V3 Rat → V3 Rat → Rat → String
+  /-- which norm the documented algorithm takes of the direction: 0 = none, 1 = `|dir|` (normalise-then-scale
+  shapes), 2 = `|(dir.x, dir.z)|` (cone, cylinder).  Used only to recognise *legitimate binary64 underflow*: the
+  oracle skips a near-zero direction iff that squared norm is exactly `0.0` in `Float` although it is non-zero in
+  exact arithmetic. -/
+  uf : Nat := 0
 
 /-- a shape that uses the trait defaults for `_toward` / posed variants -/
 def dflt3 (loc : V3 Float → Option (V3 Float)) (finiteArgs : Bool) (j : V3 Rat → V3 Rat → Rat → String) : Shape3 :=
@@ -179,12 +186,12 @@ def round3 (innerToward : V3 Float → Option (V3 Float)) (br : Float) (dilated 
     let ptw : Iso3 Float → V3 Float → Option (V3 Float) := fun m d =>
       (innerToward (m.invRot d)).map fun p => (m.act p).add (d.smul br)
     { loc := lc, toward := tw, posed := fun m d => ptw m (normalize3 d), ptoward := ptw
-      finiteArgs := finiteArgs && fin br, judge := j }
+      finiteArgs := finiteArgs && fin br, judge := j, uf := 1 }
   else
     { loc := lc, toward := tw
       posed := fun m d => (lc (m.invRot d)).map m.act
       ptoward := fun m d => (tw (m.invRot d)).map m.act
-      finiteArgs := finiteArgs && fin br, judge := j }
+      finiteArgs := finiteArgs && fin br, judge := j, uf := 1 }
 
 def ppts3 : P (List (V3 Float)) := plist pv3
 def ppts2 : P (List (V2 Float)) := plist pv2
@@ -197,7 +204,7 @@ def parseShape3 (shape : String) : Option (P Shape3) :=
       let r ← pf
       pure { loc := fun d => some (ballLocal3 r d), toward := fun d => some (ballToward3 r d)
              posed := fun m d => some (ballPosed3 r m d), ptoward := fun m d => some (ballPosedToward3 r m d)
-             finiteArgs := fin r, judge := rjudge (specPoint ⟨0, 0, 0⟩) (q r) }
+             finiteArgs := fin r, judge := rjudge (specPoint ⟨0, 0, 0⟩) (q r), uf := 1 }
   | "cuboid" => some do
       let he ← pv3
       pure (dflt3 (fun d => some (cuboidLocal3 he d)) (finite3 he) (sjudge (specCuboid (q3 he))))
@@ -207,7 +214,7 @@ def parseShape3 (shape : String) : Option (P Shape3) :=
       pure { loc := fun d => some (capsuleLocal3 a b r d), toward := tw
              posed := fun m d => some (m.act (capsuleLocal3 a b r (m.invRot d)))
              ptoward := fun m d => some (m.act (capsuleToward3 a b r (m.invRot d)))
-             finiteArgs := finite3 a && finite3 b && fin r, judge := rjudge (specSegment (q3 a) (q3 b)) (q r) }
+             finiteArgs := finite3 a && finite3 b && fin r, judge := rjudge (specSegment (q3 a) (q3 b)) (q r), uf := 1 }
   | "segment" => some do
       let a ← pv3; let b ← pv3
       pure (dflt3 (fun d => some (segmentLocal3 a b d)) (finite3 a && finite3 b) (sjudge (specSegment (q3 a) (q3 b))))
@@ -217,10 +224,10 @@ def parseShape3 (shape : String) : Option (P Shape3) :=
         (sjudge (specTriangle (q3 a) (q3 b) (q3 c))))
   | "cone" => some do
       let hh ← pf; let r ← pf
-      pure (dflt3 (fun d => some (coneLocal hh r d)) (fin hh && fin r) (sjudge (specCone (q hh) (q r))))
+      pure { dflt3 (fun d => some (coneLocal hh r d)) (fin hh && fin r) (sjudge (specCone (q hh) (q r))) with uf := 2 }
   | "cylinder" => some do
       let hh ← pf; let r ← pf
-      pure (dflt3 (fun d => some (cylinderLocal hh r d)) (fin hh && fin r) (sjudge (specCylinder (q hh) (q r))))
+      pure { dflt3 (fun d => some (cylinderLocal hh r d)) (fin hh && fin r) (sjudge (specCylinder (q hh) (q r))) with uf := 2 }
   | "polyhedron" => some do
       let pts ← ppts3; pidx
       pure (dflt3 (fun d => cloudPoint3 d pts) (pts.all finite3) (sjudge (specCloud (pts.map q3))))
@@ -267,6 +274,8 @@ structure Shape2 where
   ptoward : Iso2 Float → V2 Float → Option (V2 Float)
   finiteArgs : Bool
   judge : V3 Rat → V3 Rat → Rat → String
+  /-- 1 = the algorithm normalises the direction (see `Shape3.uf`) -/
+  uf : Nat := 0
 
 def dflt2 (loc : V2 Float → Option (V2 Float)) (finiteArgs : Bool) (j : V3 Rat → V3 Rat → Rat → String) : Shape2 :=
   { loc := loc, toward := loc
@@ -280,7 +289,7 @@ def round2 (innerToward : V2 Float → Option (V2 Float)) (br : Float) (finiteAr
   { loc := lc, toward := tw
     posed := fun m d => (lc (m.invRot d)).map m.act
     ptoward := fun m d => (tw (m.invRot d)).map m.act
-    finiteArgs := finiteArgs && fin br, judge := j }
+    finiteArgs := finiteArgs && fin br, judge := j, uf := 1 }
 /-- the plane `z = 0` as a slab of the 3-D cuboid spec: half-extent 0 in `z` -/
 def specCuboid2 (H : V2 Rat) : Spec := specCuboid ⟨H.x, H.y, 0⟩
 
@@ -290,7 +299,7 @@ def parseShape2 (shape : String) : Option (P Shape2) :=
       let r ← pf
       pure { loc := fun d => some (ballLocal2 r d), toward := fun d => some (ballToward2 r d)
              posed := fun m d => some (ballPosed2 r m d), ptoward := fun m d => some (ballPosedToward2 r m d)
-             finiteArgs := fin r, judge := rjudge (specPoint ⟨0, 0, 0⟩) (q r) }
+             finiteArgs := fin r, judge := rjudge (specPoint ⟨0, 0, 0⟩) (q r), uf := 1 }
   | "cuboid2" => some do
       let he ← pv2
       pure (dflt2 (fun d => some (cuboidLocal2 he d)) (finite2 he) (sjudge (specCuboid2 (q2 he))))
@@ -299,7 +308,7 @@ def parseShape2 (shape : String) : Option (P Shape2) :=
       pure { loc := fun d => some (capsuleLocal2 a b r d), toward := fun d => some (capsuleToward2 a b r d)
              posed := fun m d => some (m.act (capsuleLocal2 a b r (m.invRot d)))
              ptoward := fun m d => some (m.act (capsuleToward2 a b r (m.invRot d)))
-             finiteArgs := finite2 a && finite2 b && fin r, judge := rjudge (specSegment (up2 a) (up2 b)) (q r) }
+             finiteArgs := finite2 a && finite2 b && fin r, judge := rjudge (specSegment (up2 a) (up2 b)) (q r), uf := 1 }
   | "segment2" => some do
       let a ← pv2; let b ← pv2
       pure (dflt2 (fun d => some (segmentLocal2 a b d)) (finite2 a && finite2 b) (sjudge (specSegment (up2 a) (up2 b))))
@@ -320,11 +329,14 @@ def parseShape2 (shape : String) : Option (P Shape2) :=
 
 /-! ### the four modes -/
 
-/-- directions the property quantifies over: non-zero, and not so small that `|dir|²` underflows -/
+/-- the exact direction rescaled so that its largest component is ±1 (scale-free judgement) -/
+def rescale (D : V3 Rat) : V3 Rat := D.smul (1 / linf3 D)
+
+/-- directions the property quantifies over: every non-zero one, however small (near-zero directions are judged
+like any other, on the exact rational direction rescaled by `1/|dir|_∞`); unit ones for the `_toward` variants -/
 def dirVerdict (D : V3 Rat) (unitRequired : Bool) : Option String :=
   let n2 := D.normSq
   if n2 = 0 then some "skip zero-direction"
-  else if n2 < 1 / 10 ^ 200 then some "skip direction-underflows"
   else if unitRequired && (rabs (n2 - 1) > 1 / 10 ^ 9) then some "skip non-unit-direction"
   else none
 
@@ -348,15 +360,22 @@ def mode3 (sh : P Shape3) (mode : String) : Option Handler :=
       | none => "skip bad-args"
       | some (s, m, d) =>
         if !(s.finiteArgs && finiteIso3 m && finite3 d) then "skip nonfinite-input" else
-        withOut po3 o fun p =>
-          if !finite3 p then "fail nonfinite-output" else
-          let D := q3 d
-          match dirVerdict D unitMode with
-          | some v => v
-          | none =>
-            if posedMode then
-              let M := qiso3 m
-              s.judge (M.invRot D) (M.invAct (q3 p)) (linf3 M.t)
+        match dirVerdict (q3 d) unitMode with
+        | some v => v
+        | none =>
+          let D := rescale (q3 d)
+          let M := qiso3 m
+          let Dl := if posedMode then M.invRot D else D
+          -- legitimate underflow: the squared norm the algorithm takes is exactly 0.0 in binary64
+          let dl : V3 Float := if posedMode then m.invRot d else d
+          let under := match s.uf with
+            | 1 => d.normSq == 0.0 || dl.normSq == 0.0
+            | 2 => (⟨dl.x, 0, dl.z⟩ : V3 Float).normSq == 0.0 && (Dl.x != 0 || Dl.z != 0)
+            | _ => false
+          if under then "skip direction-underflows" else
+          withOut po3 o fun p =>
+            if !finite3 p then "fail nonfinite-output" else
+            if posedMode then s.judge Dl (M.invAct (q3 p)) (linf3 M.t)
             else s.judge D (q3 p) 0 }
 
 def mode2 (sh : P Shape2) (mode : String) : Option Handler :=
@@ -379,15 +398,18 @@ def mode2 (sh : P Shape2) (mode : String) : Option Handler :=
       | none => "skip bad-args"
       | some (s, m, d) =>
         if !(s.finiteArgs && finiteIso2 m && finite2 d) then "skip nonfinite-input" else
-        withOut po2 o fun p =>
-          if !finite2 p then "fail nonfinite-output" else
-          let D := q2 d
-          match dirVerdict (up D) unitMode with
-          | some v => v
-          | none =>
-            if posedMode then
-              let M := qiso2 m
-              s.judge (up (M.invRot D)) (up (M.invAct (q2 p))) (rmax (rabs M.t.x) (rabs M.t.y))
+        match dirVerdict (up (q2 d)) unitMode with
+        | some v => v
+        | none =>
+          let D3 := rescale (up (q2 d))
+          let D : V2 Rat := ⟨D3.x, D3.y⟩
+          let M := qiso2 m
+          let dl : V2 Float := if posedMode then m.invRot d else d
+          let under := s.uf == 1 && (d.normSq == 0.0 || dl.normSq == 0.0)
+          if under then "skip direction-underflows" else
+          withOut po2 o fun p =>
+            if !finite2 p then "fail nonfinite-output" else
+            if posedMode then s.judge (up (M.invRot D)) (up (M.invAct (q2 p))) (rmax (rabs M.t.x) (rabs M.t.y))
             else s.judge (up D) (up (q2 p)) 0 }
 
 /-- `point_cloud_support_point_id` / `point_cloud_support_point` on raw clouds -/
